@@ -344,6 +344,8 @@ func init() {
 			}
 			r.AddSkel(skels[i], s)
 		}
+		cc.RunKernels(r, []*KernelCase{{Name: "equal-aliased-slices", Func: "VerifKernelEqualAliased", Native: jsonschema.VerifKernelEqualAliased}})
+		r.Bounds = append(r.Bounds, "aliasing kernel (concrete): slices sharing a backing array (s vs s[:k], later starts, []any / []int / []string, nested in arrays and objects) are equal exactly when their elements are")
 		r.Bounds = append(r.Bounds, "two independent symbolic JSON values x, y per query, templates T(1,2..3,2) and T(2,2,2); numeric kinds over their full ranges (integers beyond 2^53 included), json.Number n/10^k with k<=3; representation profiles as in C08", "reflexivity, symmetry and transitivity follow within the bound from agreement with mathematical JSON equality")
 	}
 }
@@ -411,6 +413,14 @@ func init() {
 			skels = append(skels, sk)
 		}
 		uq("canonical-len3", 3, func(tm *sx.Tmpl) { tm.NegZero = true })
+		// degenerate lists: an enum without values admits nothing; a one-element enum is const
+		for _, d := range []struct {
+			n string
+			j J
+		}{{"enum-empty", J{"enum": A{}}}, {"enum-empty-with-type", J{"type": "string", "enum": A{}}}, {"enum-one-null", J{"enum": A{nil}}}, {"enum-one-object", J{"enum": A{J{"a": A{}}}}}, {"const-empty-array", J{"const": A{}}}, {"const-empty-object", J{"const": J{}}}} {
+			sk := mkSkel("F-enumdoc", d.n, d.j, refsem.Draft2020, TmplSpec{2, 2, 2})
+			skels = append(skels, sk)
+		}
 		uq("numeric-len2", 2, func(tm *sx.Tmpl) { tm.NumReps = allNumReps; tm.NegZero = true })
 		uq("containers-len2", 2, func(tm *sx.Tmpl) { tm.NumReps = []int{sx.RepFloat64, sx.RepInt}; tm.ContainerReps = true })
 		uq("wrappers-len2", 2, func(tm *sx.Tmpl) { tm.Wrappers = true })
@@ -496,6 +506,16 @@ func init() {
 			}
 			r.Bounds = append(r.Bounds, "Resolve on a shared Schema tree: the F-resorder documents are imported as shared pre-state and the real Resolve runs in the engine (all map orders); any store, append or map update into the caller's tree is a violation, confirmed by a native deep before/after comparison")
 		}
+		// Marshal on a shared Schema: no write into it
+		cc.RunMarshalPurityFamily(r)
+		{
+			var cases []*KernelCase
+			for n := 0; n <= 2; n++ {
+				cases = append(cases, &KernelCase{Name: fmt.Sprintf("marshal-purity.order.len%d", n), Func: "VerifKernelPropertyOrder", Native: jsonschema.VerifKernelPropertyOrder, AllOrders: true, SchemaMarshalsTrue: true,
+					Args: []ArgSpec{boolArg(), boolArg(), boolArg(), boolArg(), strArg(n, "abcBz")}})
+			}
+			cc.RunKernels(r, cases)
+		}
 		// process-wide caches: complete before publication, never written afterwards
 		{
 			sk := []*Skeleton{{Name: "F-cache/jsonNames", Family: "F-cache"}}
@@ -507,7 +527,7 @@ func init() {
 		}
 		r.Explanation = "Schedules are not enumerated (the engine has no model of Go's concurrency). What is decided, by symbolic execution of the real SSA over all instances within the template bounds, is a sufficient condition that makes schedules irrelevant: on every path of Validate (and of ApplyDefaults, except for the caller's own instance) no Store / map update / reflect Set targets memory that existed before the call (the imported Resolved, Schema tree, side tables, package-level variables after initialisation) unless it goes through a sync.Map. Calls that write only call-local memory cannot race with each other and behave as in isolation. A violation is confirmed natively by a deep before/after comparison or by running concurrent calls under the race detector."
 		r.Bounds = append(r.Bounds, boundsValidate...)
-		r.Outside = append(r.Outside, "Marshal and CloneSchemas on shared inputs, Resolve beyond the F-resorder documents, and For beyond its TypeSchemas overrides (their write footprints are not explored); the Go memory model itself; library internals behind intrinsics (regexp, fmt, maphash are documented safe for concurrent use)")
+		r.Outside = append(r.Outside, "CloneSchemas on shared inputs (see C20), Marshal beyond the F-marshalpure schemas and the order kernel, Resolve beyond the F-resorder documents, and For beyond its TypeSchemas overrides (their write footprints are not explored); the Go memory model itself; library internals behind intrinsics (regexp, fmt, maphash are documented safe for concurrent use)")
 		r.Extra["paths_with_shared_writes"] = len(r.SharedWrites)
 	}
 	Checks["C14"] = func(cc *CheckCtx, r *Report) {
@@ -560,12 +580,13 @@ func init() {
 			}
 			r.Bounds = append(r.Bounds, "Resolve determinism: 13 concrete documents with (duplicate) $id, anchors, dynamic anchors, pointer references and loader-supplied diamonds of documents in mixed drafts; the real Resolve runs in the engine and every map range forks over all permutations of its keys (maps of <= 4 keys; larger maps: every rotation in both directions); each path's rendering of bases/URIs/reference targets/anchors must equal the native one (exhaustive over iteration orders; no symbolic data, so this part is exploration rather than an SMT verdict)")
 		}
+		cc.RunMarshalPurityFamily(r)
 		// (e) Marshal leaves PropertyOrder (and the memory behind it) alone, for every order list and property set
 		{
 			var cases []*KernelCase
 			for n := 0; n <= 2; n++ {
 				cases = append(cases, &KernelCase{Name: fmt.Sprintf("marshal-purity.order.len%d", n), Func: "VerifKernelPropertyOrder", Native: jsonschema.VerifKernelPropertyOrder, AllOrders: true, SchemaMarshalsTrue: true,
-					Args: []ArgSpec{boolArg(), boolArg(), boolArg(), boolArg(), strArg(n, "abcdz")}})
+					Args: []ArgSpec{boolArg(), boolArg(), boolArg(), boolArg(), strArg(n, "abcBz")}})
 			}
 			cc.RunKernels(r, cases)
 			r.Bounds = append(r.Bounds, "Marshal purity: the C19 kernel (real orderedProperties.MarshalJSON, symbolic property presence, order lists of length <= 2 with spare capacity) also asserts that the list and its spare capacity are unchanged after the call")
